@@ -4,6 +4,7 @@
 package main
 
 import (
+	"github.com/golang/protobuf/proto"
 	"bufio"
 	"crypto/sha1"
 	"encoding/hex"
@@ -230,13 +231,17 @@ func doCall(c *TrieCase, st *trie.SlimTrie, rc readCall) (res string) {
 	case "Marshal":
 		b, err := st.Marshal()
 		out = []interface{}{hashHex(b), len(b), err == nil}
+	case "ProtoMarshal":
+		// the same instance through the protobuf interfaces it implements
+		b, err := proto.Marshal(st)
+		out = []interface{}{hashHex(b), len(b), err == nil, proto.Size(st)}
 	}
 	b, _ := json.Marshal(out)
 	return string(b)
 }
 
 func pickCalls(r *rand.Rand, c *TrieCase, k int, scansOK bool) []readCall {
-	apis := []string{"GetID", "Get", "RangeGet", "Search", "GetID", "Search", "Stat", "String", "Marshal", "GetI"}
+	apis := []string{"GetID", "Get", "RangeGet", "Search", "GetID", "Search", "Stat", "String", "Marshal", "GetI", "ProtoMarshal", "RangeGet"}
 	if scansOK {
 		apis = append(apis, "ScanFrom", "ScanFromTo", "Iter", "Iter", "ScanFrom")
 	}
